@@ -12,6 +12,12 @@ Spec (plain JSON):
 The uid of an event is 100*wave+index and travels as first positional argument.
 """
 import json
+import os
+import re
+import shutil
+import subprocess
+import sys
+import tempfile
 
 from hypothesis import strategies as st
 
@@ -245,6 +251,72 @@ class C19(Prop):
             for i in range(1, 330 if tier == 'quick' else 700):
                 out.append({'clients': 1, 'fw': {}, 'cuts': {'sizes': [i, 4096], 'burst': 0},
                             'waves': [{'sends': [ev(src, how)], 'forged': []}]})
+        if tier == 'thorough' and not os.environ.get('C19_NO_FUZZ'):
+            out += self.campaign()
+        return out
+
+    # ------------------------------------------------------------------ thorough: atheris campaign on hostile bytes
+    FUZZ_PROCS = 8
+    FUZZ_RUNS = 20000
+
+    def campaign(self):
+        """Coverage-guided hostile byte streams (vlib/c19_helpers.py: bytes -> spec, this module's oracle in the target).
+        A failing spec is handed to the runner as an enumerated case (-> VIOLATION + replay file)."""
+        from vlib import runner
+        verif = runner.VERIF
+        if not os.path.isdir(os.path.join(verif, '.deps', 'atheris')):
+            self.rule += ' | atheris campaign skipped: atheris not installed in .deps'
+            return []
+        seed = int(os.environ.get('VERIF_SEED', '1') or 1)
+        top = tempfile.mkdtemp(prefix='c19-fuzz-')
+        env = dict(os.environ, PYTHONHASHSEED='0',
+                   PYTHONPATH=os.pathsep.join([runner.REPO, verif, os.path.join(verif, '.deps')]))
+        procs = []
+        failing, notes, covs, runs = [], [], [], 0
+        try:
+            for k in range(self.FUZZ_PROCS):
+                d = os.path.join(top, 'p%d' % k)
+                os.makedirs(d)
+                log = open(os.path.join(d, 'log'), 'w')
+                procs.append((d, log, subprocess.Popen(
+                    [sys.executable, '-m', 'vlib.c19_helpers', '--out', d, '--corpus', os.path.join(verif, 'corpus', 'C19'),
+                     '-runs=%d' % self.FUZZ_RUNS, '-seed=%d' % (seed * 1000 + k)],
+                    cwd=verif, env=env, stdout=subprocess.DEVNULL, stderr=log)))
+            for d, log, p in procs:
+                try:
+                    rc = p.wait(timeout=3600)
+                except subprocess.TimeoutExpired:
+                    p.kill()
+                    p.wait()
+                    rc = None
+                log.close()
+                text = open(os.path.join(d, 'log'), errors='replace').read()
+                if rc == 1 and os.path.exists(os.path.join(d, 'C19-fuzz.json')):
+                    with open(os.path.join(d, 'C19-fuzz.json')) as f:
+                        failing.append(json.load(f))
+                elif rc == 0:
+                    m = re.findall(r'cov: (\d+)', text)
+                    if m:
+                        covs.append(int(m[-1]))
+                    m = re.search(r'number_of_executed_units: (\d+)', text)
+                    runs += int(m.group(1)) if m else 0
+                else:
+                    notes.append('campaign %s ended rc=%r: %s' % (os.path.basename(d), rc, text[-200:].replace('\n', ' ')))
+        finally:
+            for d, log, p in procs:
+                if p.poll() is None:
+                    p.kill()
+            shutil.rmtree(top, ignore_errors=True)
+        self.rule += (' | thorough tier additionally ran %d atheris campaigns on hostile byte streams (seeds %d..%d, same oracle): '
+                      '%d executions, edge coverage of circuits/node/{protocol,utils}.py %s, %d violations%s' % (
+                          self.FUZZ_PROCS, seed * 1000, seed * 1000 + self.FUZZ_PROCS - 1, runs,
+                          ('%d-%d' % (min(covs), max(covs))) if covs else 'n/a', len(failing),
+                          ('; ' + '; '.join(notes)) if notes else ''))
+        seen, out = set(), []
+        for f in failing:
+            if f['clause'] not in seen:
+                seen.add(f['clause'])
+                out.append(f['spec'])
         return out
 
     def exclude(self, spec, triggers):
@@ -380,7 +452,11 @@ class C19(Prop):
                 e = Event.create(nm, uid, 'after-hostile')
                 e.channels = ('c0',)
                 scripts[uid] = {'kind': 'plain', 'meta': {}, 'tamper_call': {}}
-                rig.inject(label, dump_event(e, 77).encode('utf-8') + H.DELIM)
+                try:
+                    pkt = dump_event(e, 77).encode('utf-8')
+                except Exception as exc:  # noqa - the serialiser is code under test
+                    return Result(False, 'serialisation-roundtrip', 'dump_event(%s(%d, "after-hostile")) raised %s: %s' % (nm, uid, type(exc).__name__, str(exc)[:120]))
+                rig.inject(label, pkt + H.DELIM)
                 follow.append((label, proc, uid))
         if follow:
             complete = rig.pump([4096], 0) and complete
